@@ -257,8 +257,9 @@ def turn_frame_in(rng, compat, n, payload=None):
 
 
 def turn_ref(compat, s):
-    """reference reassembly (written from the framing rules, not from the model): messages, status, oversize"""
-    msgs, i = [], 0
+    """reference reassembly (written from the framing rules, not from the model): messages, status, and whether
+    some frame header announces more than the 65536-byte recv_buf of the unchanged code can hold"""
+    msgs, i, oversize = [], 0, False
     if compat == MSN:
         return msgs, ("err" if s else "ok"), False
     while i < len(s):
@@ -274,20 +275,16 @@ def turn_ref(compat, s):
             tot, start = int.from_bytes(s[i:i + 2], "big"), i + 2
         else:
             if s[i] not in (2, 3):
-                return msgs, "err", False
+                return msgs, "err", oversize
             tot, start = int.from_bytes(s[i + 2:i + 4], "big") + 2, i + 2
-        room = 65536
-        if tot > room:
-            # the frame does not fit recv_buf: fine as long as the stream ends before the buffer is full
-            if len(s) - start > room:
-                return msgs, "fault", True
-            return msgs, "ok", True
+        if tot > 65536:
+            oversize = True     # does not fit the 65536-byte recv_buf of the unchanged code
         if len(s) - start < tot:
             break
         if tot > 0:
             msgs.append(s[start:start + tot])
         i = start + tot
-    return msgs, "ok", False
+    return msgs, "ok", oversize
 
 
 def gen_turn(rng, C, tier):
@@ -524,6 +521,29 @@ def gen_socks(rng, C, tier):
         case(rng.choice([0xaa, 0, 2, 5, 1, 4]), user, pw, rng.choice([addr4, addr6]), stream,
              rand_cuts(rng, len(stream), rng.choice(["one", "few", "many"])), hs, ("reply-grammar", expect if expect != "?" else "any"),
              " r:%s" % hx(tunnel_bytes(rng, 2)) if rng.random() < 0.3 else "")
+    # exactly one field of an otherwise successful exchange is wrong: every reply code, version, reserved byte, address type
+    for (user, pw) in creds:
+        auth = (user, pw) != ("-", "-")
+        good = [bytes([5, 2 if auth else 0])] + ([bytes([1, 0])] if auth else []) + [bytes([5, 0, 0, 1]) + bytes([10, 0, 0, 1, 0, 80])]
+        flat = b"".join(good)
+        fields = []
+        off = 0
+        for part in good:
+            for i in range(min(len(part), 4)):
+                fields.append(off + i)
+            off += len(part)
+        for fpos in fields:
+            vals = set(range(0, 10)) | {0x7f, 0x80, 0xff} if tier == "quick" else set(range(256))
+            for v in sorted(vals - {flat[fpos]}):
+                bad = bytearray(flat); bad[fpos] = v
+                # an IPv6 address type is a different, valid shape: append the longer tail
+                if fpos == len(flat) - 7 and v == 4:
+                    bad += bytes(12)
+                    exp = "ok"
+                else:
+                    exp = "err"
+                stream = bytes(bad) + b"\x01\x02"
+                case(0xaa, user, pw, addr4, stream, [], len(bad), ("one-field-wrong", exp))
     # long credentials (255 fits, 256 is refused), garbage
     for ulen, plen in ((255, 255), (256, 1), (1, 256), (0, 0)):
         user = ("61" * ulen) or "-"
@@ -770,6 +790,27 @@ def nontrivial(line, out):
     return out is not None and any(x in out for x in (" R1:", " D", " K", " S1"))
 
 
+class CappedReports:
+    """vlib.correspond reports at most max_report oracle failures, known findings included, so a genuine violation
+    behind the (many) known ones would go unreported; with a large max_report every failing case would get a replay
+    file.  Local workaround: let every failure through to the known-findings match, keep the first few genuine ones."""
+
+    def __init__(self, chk, cap=5):
+        self._chk, self._cap, self.dropped = chk, cap, 0
+
+    def __getattr__(self, name):
+        return getattr(self._chk, name)
+
+    def violation(self, replay, summary, no_input=False):
+        if len(self._chk.violations) >= self._cap:
+            known = any(k.get("property") == self._chk.pid and k.get("status") == "known" and vlib._match_known(k, replay)
+                        for k in vlib.load_known())
+            if not known:
+                self.dropped += 1
+                return True
+        return self._chk.violation(replay, summary, no_input)
+
+
 def run(chk):
     chk.prove(["Props/Properties_C17.v"], ["Stream/Extract_Stream.vo"])
     model, o = vlib.ocaml_build("stream_model", "stream_model", DRIVER)
@@ -780,11 +821,14 @@ def run(chk):
         chk.broken_obligation("impl-build", o[-3000:])
     if impl:
         cases = gen_cases(chk.rng, chk.tier)
+        capped = CappedReports(chk)
         if model:
-            vlib.correspond(chk, cases, model, impl, oracle=oracle, what="stream-layers", nontrivial=nontrivial,
+            vlib.correspond(capped, cases, model, impl, oracle=oracle, what="stream-layers", nontrivial=nontrivial,
                             max_report=10 ** 9, timeout=1500)
         else:
-            vlib.correspond(chk, cases, impl, impl, oracle=oracle, what="stream-layers-oracle-only", max_report=10 ** 9, timeout=1500)
+            vlib.correspond(capped, cases, impl, impl, oracle=oracle, what="stream-layers-oracle-only", max_report=10 ** 9, timeout=1500)
+        if capped.dropped:
+            chk.cov["further_violations_not_written"] = capped.dropped
     return chk.finish(**FINISH)
 
 
